@@ -148,7 +148,7 @@ def ghost_specs():
     S["unpackI"] = GhostSpec("unpackI", lambda e, st, a: VInt(_bm().UNPACK["I"](a[0].t)))
     S["enc"] = GhostSpec("enc", lambda e, st, a: _bm().enc_term(e, st, a[0]))
     S["dec"] = GhostSpec("dec", lambda e, st, a: VStr(None, _bm().DEC(a[0].t)))
-    S["sub"] = GhostSpec("sub", lambda e, st, a: _bm().VBytes(z3.SubString(a[0].t, e.to_int(a[1]), e.to_int(a[2]))))
+    S["sub"] = GhostSpec("sub", lambda e, st, a: _bm().VBytes(_bm().named_sub(e, st, a[0].t, e.to_int(a[1]), e.to_int(a[2]))))
     def isfin(e, st, a):
         from .npelem import _notfin
         x = a[0]
